@@ -139,6 +139,7 @@ type run struct {
 	count    map[string]int
 	awaited  map[string]int
 	nev      int
+	evScale  int
 	runaway  bool
 	stats    map[string]int
 	inPort   []*pendingMsg // completion messages delivered to the CP and not yet retrieved by it
@@ -149,12 +150,12 @@ type run struct {
 }
 
 // maxEvents bounds one run's trace: a CP that never goes idle (e.g. one that keeps sending) is cut off;
-// the prefix recorded so far is still validated.
-const maxEvents = 200000
+// the prefix recorded so far is still validated.  (Runs with hundreds of work-groups get a larger bound.)
+const maxEvents = 20000
 
 func (r *run) emit(e string, f ab.Rec) {
 	r.nev++
-	if r.nev > maxEvents {
+	if r.nev > maxEvents*r.evScale {
 		r.dead, r.runaway = true, true
 		return
 	}
@@ -238,7 +239,7 @@ func newRun(rec *ab.Recorder, sc *Scenario, emu bool) *run {
 	r := &run{rec: rec, eng: ab.NewEngine(), cfg: sc.CUs, cuIndex: map[sim.RemotePort]int{},
 		byPacket: map[*kernels.HsaKernelDispatchPacket]*kernel{}, byReqID: map[string]*kernel{},
 		maps: map[string]*mapInfo{}, byWG: map[[2]int]*mapInfo{}, count: map[string]int{}, awaited: map[string]int{},
-		stats: map[string]int{}}
+		stats: map[string]int{}, evScale: 1}
 	rec.ResetIDs()
 	b := cp.MakeBuilder().WithEngine(r.eng).WithFreq(1 * sim.GHz).
 		WithConstantKernelLaunchOverhead(sc.Overhead[0]).
@@ -1073,6 +1074,7 @@ func main() {
 			sc.CUs = append(sc.CUs, CUCfg{Slots: []int{10, 10, 10, 10}, SRegs: 3200, VRegs: []int{256, 256, 256, 256}, LDS: 65536})
 		}
 		r := begin(sc, false)
+		r.evScale = 20
 		r.big(rng)
 		end(r, sc.Probe)
 	}
